@@ -274,7 +274,7 @@ impl<'a> Gen<'a> {
     fn exactly_one(&mut self) {
         let mut s = self.reg.clone();
         self.r.shuffle(&mut s);
-        let n = if self.r.chance(1, 12) { 0 } else { self.r.range(1, 4.min(s.len())) };
+        let n = if self.r.chance(1, 12) { 0 } else if self.r.chance(1, 6) { s.len() } else { self.r.range(1, 4.min(s.len())) };
         s.truncate(n);
         let t = Tab::exactly_one(&s);
         self.push_op(Step::ExactlyOne { slots: s }, t);
